@@ -18,7 +18,8 @@ Steps == {st \in All : Enabled(st)}
 Init == InitWith(Cfg, Pre)
 Next == NextWith(Steps)
 Spec == Init /\ [][Next]_vars
-Depth == 7
+Depth == 9
+DepthT == 11
 Constraint == Len(hist) <= Len(Pre) + Depth
 ASSUME PrintT(<<"CFG", ToJson(CfgJson(Cfg))>>)
 =============================================================================
